@@ -72,7 +72,13 @@ def defect(cls, kind, base_arr, mag, k):
         T[:3, :3] = a[:3, :3]
         return T
     if cls in ("SO2", "SE2", "SO3", "SE3"):
-        if kind in ("near", "nonorth"):
+        if kind == "nonorth" and k % 2 == 1:
+            # columns stay of unit length and the determinant positive, but they are no longer orthogonal
+            jx = k % n
+            i = (jx + 1) % n
+            c = a[:n, jx] + mag * a[:n, i]
+            a[:n, jx] = c / np.linalg.norm(c)
+        elif kind in ("near", "nonorth"):
             i, jx = divmod(k % (n * n), n)
             a[i, jx] += mag
         elif kind == "scaled":
@@ -94,6 +100,8 @@ def defect(cls, kind, base_arr, mag, k):
             a[k % m, k % m] = mag
         elif kind == "notskew":
             i, jx = offs[k % len(offs)]
+            if k % 3 == 2 and mag >= 1e-3:
+                a[:m, :m] *= 1e12            # an element of large magnitude: the mismatch is absolute, not relative
             a[i, jx] += mag
         elif kind == "bottom":
             a[m, k % (m + 1)] = mag
@@ -385,6 +393,12 @@ def predicate_args(pred, kind, rng):
             if kind != "valid":
                 S2[0, 1] += mag
             out.append((S2, mag))
+            # skew-symmetric matrices of large magnitude (exactly skew after scaling); mismatches are absolute
+            if kind == "valid" or mag >= 1e-3:
+                Sb = members("Twist3", rng)[1][:3, :3] * 1e12
+                if kind != "valid":
+                    Sb[0, 1] += mag
+                out.append((Sb, mag))
         return out
     if pred == "iseye":
         for n in (2, 3, 4):
